@@ -24,6 +24,9 @@ NCPU = os.cpu_count() or 4
 GOENV = dict(GOFLAGS="-mod=mod", GOPROXY="off", GOSUMDB="off", GOTOOLCHAIN="local")
 
 
+TLC_SELF_DIAGNOSED = re.compile(r"Failed to recover the (initial|next) state from its fingerprint|This is probably a TLC bug")
+
+
 class MachineryError(Exception):
     pass
 
@@ -213,6 +216,21 @@ class Run:
 
     # -------------------------------------------------------------------- TLC
     def tlc(self, module, cfg=None, workers=1, timeout=1800, env=None, cwd=None, extra=None, dfs=False, heap=None):
+        """one TLC run.  A run with several workers whose error TLC itself could not reconstruct ("Failed to recover the
+        initial state from its fingerprint", "This is probably a TLC bug") is not a verdict about the specification: the
+        reported state exists only in the memory of racing workers (lazy values of shared constants, see mc).  It is
+        repeated with one worker and that run is the result."""
+        r = self._tlc_once(module, cfg, workers, timeout, env, cwd, extra, dfs, heap)
+        if workers > 1 and TLC_SELF_DIAGNOSED.search(r["out"]):
+            log("TLC %s/%s with %d workers reported an error it could not reconstruct (%s); repeating with one worker" % (
+                module, cfg, workers, TLC_SELF_DIAGNOSED.search(r["out"]).group(0)))
+            first = [ln for ln in r["out"].splitlines() if ln.startswith("Error:")][:3]
+            with _LOCK:
+                self.extra.setdefault("tlc_runs_repeated_with_one_worker", []).append(dict(module=module, cfg=cfg, workers_first=workers, first_outcome=first))
+            r = self._tlc_once(module, cfg, 1, timeout * 3, env, cwd, extra, dfs, heap)
+        return r
+
+    def _tlc_once(self, module, cfg, workers, timeout, env, cwd, extra, dfs, heap):
         cwd = cwd or self.specdir
         md = tempfile.mkdtemp(prefix="md-", dir=self.scratch)
         cmd = ["java", "-Xss768m", "-XX:+UseParallelGC"]
@@ -260,7 +278,27 @@ class Run:
         ex = list(extra or [])
         if coverage:
             ex += ["-coverage", "1"]
-        r = self.tlc(module, cfg=cfg, workers=workers or min(NCPU, 16), timeout=timeout, extra=ex, heap=heap)
+        nw = workers or min(NCPU, 16)
+        r = self.tlc(module, cfg=cfg, workers=nw, timeout=timeout, extra=ex, heap=heap)
+
+        def as_expected(x):
+            if "generated" not in x:
+                return False
+            if expect_violation:
+                return (not x["clean"]) and expect_violation in x["out"]
+            return x["clean"]
+        rerun = None
+        if nw > 1 and not as_expected(r):
+            # Several TLC workers share the values of the constants, and some of TLC's lazy values are not safe to share
+            # (a function constructor under EXCEPT publishes its table before the EXCEPTs are applied: C01's MC_DataXKeep
+            # reported "Invariant ReadBack is violated", then "Failed to recover the initial state from its fingerprint /
+            # This is probably a TLC bug", about once in 100 runs; DESIGN 8, C01).  What the specification says does not
+            # depend on the number of workers: an outcome other than the expected one is decided by repeating the same
+            # exhaustive run with ONE worker, where there is nothing to race with; that verdict stands whatever it is.
+            why = [ln for ln in r["out"].splitlines() if ln.startswith("Error:")][:3] or [tail(r["out"], 3)]
+            log("MC %s/%s: unexpected outcome with %d workers (%s); repeating with one worker, whose verdict stands" % (module, cfg, nw, " | ".join(why)[:400]))
+            rerun = dict(workers_first=nw, first_outcome=why)
+            r = self.tlc(module, cfg=cfg, workers=1, timeout=timeout * 3, extra=ex, heap=heap)
         if "generated" not in r:
             raise MachineryError("TLC produced no state count for %s:\n%s" % (module, tail(r["out"])))
         rec = dict(module=module, cfg=cfg, states=r["distinct"], transitions=r["generated"], wall_s=r["wall"])
@@ -270,6 +308,8 @@ class Run:
             rec["refuted_as_expected"] = expect_violation
         elif not r["clean"]:
             raise MachineryError("model checking of %s/%s reported an error (the SPEC is wrong, not the code):\n%s" % (module, cfg, tail(r["out"], 60)))
+        if rerun:
+            rec["repeated_with_one_worker"] = rerun
         if coverage:
             zero = re.findall(r"<(\w+) line \d+, col \d+ to line \d+, col \d+ of module \w+>: 0:0", r["out"])
             rec["actions_never_taken"] = zero
